@@ -19,14 +19,14 @@ FUNCTIONS = [
     "mithril_resource_pool::ResourcePoolItem::{new, discriminant, take, deref, drop}",
 ]
 
-QUICK = ["c18_sym_h3_s2_i1_u1", "c18_sym_h3_s1_i1_u1", "c18_sym_h3_s2_i0_u1", "c18_sym_h2_s2_i2_u2"]
+QUICK = ["c18_sym_h3_s2_i1_u1", "c18_sym_h3_s1_i1_u1", "c18_sym_h3_s2_i0_u1", "c18_sym_h2_s2_i2_u2", "c18_pre_h2_s2_i1_u1"]
 THOROUGH = QUICK + ["c18_sym_h4_s2_i1_u1", "c18_sym_h4_s1_i1_u1", "c18_sym_h4_s2_i0_u1", "c18_sym_h3_s2_i2_u2", "c18_sym_h4_s2_i2_u2",
-                    "c18_sym_h3_s3_i2_u2", "c18_sym_h3_s3_i3_u2", "c18_sym_h5_s2_i1_u1"]
+                    "c18_sym_h3_s3_i2_u2", "c18_sym_h3_s3_i3_u2", "c18_sym_h5_s2_i1_u1", "c18_pre_h3_s2_i1_u1", "c18_pre_h2_s2_i2_u2"]
 
 
 def shape(name):
     m = re.search(r"h(\d)_s(\d)_i(\d)_u(\d)", name)
-    return {"steps": int(m.group(1)), "size": int(m.group(2)), "idle": int(m.group(3)), "users": int(m.group(4))}
+    return {"steps": int(m.group(1)), "size": int(m.group(2)), "idle": int(m.group(3)), "users": int(m.group(4)), "preempt": "_pre_" in name}
 
 
 def classify(check_desc):
@@ -52,6 +52,8 @@ def native_search(sh):
         if prof == "release":
             cmd.append("--release")
         cmd += ["--", "all", str(sh["idle"]), str(sh["size"]), str(min(sh["steps"], 4)), str(sh["users"])]
+        if sh.get("preempt"):
+            cmd.append("preempt")
         p = subprocess.run(cmd, cwd=cdir, env=env, stdout=subprocess.PIPE, stderr=subprocess.PIPE, text=True, timeout=1500)
         out[prof] = p.stdout.strip().split("\n") if p.returncode == 0 else ["could not run: " + p.stderr[-300:]]
     return out
@@ -74,12 +76,12 @@ def run(tier, seed):
         "pre-state satisfies the representation invariant: IDLE <= SIZE idle resources, all of the current generation",
         "resources come back under the tag of the generation they were built for (honest callers); raw give-backs use an arbitrary pair (g, g)",
         "refresh = set_discriminant(d+1); clear(); refill j<=SIZE resources of generation d+1 (prover.rs compute_cache), d < u64::MAX",
-        "operation granularity: every pool method is atomic w.r.t. other users (each takes and releases the pool's mutexes inside one call)",
+        "operation granularity: every pool method is atomic w.r.t. other users (each takes and releases the pool's mutexes inside one call), except in the c18_pre_* harnesses where Reset::reset inside a give-back is a preemption point (context bound 1)",
         "Kani models atomics and Mutex sequentially",
     ]
     rep.outside = [
         "blocking acquire on an empty pool, wake-up and time-out (liveness sentence of the property)",
-        "preemption inside give_back_resource between count() and the push (check-then-act), weak memory, real threads",
+        "more than one preemption; preemption points other than Reset::reset inside give_back_resource (e.g. between count() and the push, or between set_discriminant and clear of a refresh), weak memory, real threads",
         "histories longer than STEPS, pools larger than 3, more than 2 concurrent holders",
         "MKMap::reset/compress (the real resource type) — the harness resource is a generation tag",
     ]
@@ -114,8 +116,9 @@ def run(tier, seed):
                 rep.inconcl(ob.detail)
             continue
         sh = shape(short)
-        ob = rep.add(core.Obligation(n, "kani", "every history of %(steps)d solver-chosen operations by %(users)d user(s) on a pool of size %(size)d with %(idle)d idle: "
-                                                "idle resources all of the current generation, count <= size, acquired item of the current generation" % sh,
+        ob = rep.add(core.Obligation(n, "kani", ("every history of %(steps)d solver-chosen operations by %(users)d user(s) on a pool of size %(size)d with %(idle)d idle" % sh) +
+                                     (", with one solver-placed preemption (a refresh or raw give-back by another user) inside a give-back's Reset::reset" if sh["preempt"] else "") +
+                                     ": idle resources all of the current generation, count <= size, acquired item of the current generation",
                                      dict(sh, vccs=r.n_checks, unwind=6)))
         ob.solver_s = r.time_s
         ob.covers = (r.covers_sat, r.covers_total)
